@@ -233,6 +233,34 @@ def zero_run_cases(bits, rng, count):
     return out
 
 
+def low_zero_divisor_cases(bits, rng, count):
+    """Divisors whose LOW limbs are zero (d = x * 2^(64 k)) against numerators with fewer, as many and more significant limbs than
+    that zero run, and numerators equal to / one off the divisor: a dispatcher that strips or skips zero limbs of the divisor
+    must still handle the numerator-shorter-than-divisor and equal-operand cases (seeds T3-B, T9-A)."""
+    L = (bits + 63) // 64
+    mx = (1 << bits) - 1
+    W = (1 << 64) - 1
+    out = []
+    for k in range(1, L):
+        for x in (1, W, 1 << 63, rng.getrandbits(64) | 1, rng.getrandbits(64 * max(L - k, 1)) | 1, (W << 64) | W):
+            d = (x << (64 * k)) & mx
+            if d == 0:
+                continue
+            ns = [1, 5, W, d, d - 1, d + 1, (d << 1) & mx, d | 1, mx, mx & ~((1 << (64 * k)) - 1)]
+            for j in range(1, L + 1):
+                ns.append(rng.getrandbits(64 * j) & mx)                     # every numerator length
+                ns.append(((1 << (64 * j)) - 1) & mx)
+            out += [(n & mx, d) for n in ns]
+    # equal and nearly equal multi-limb operands without zero limbs as well
+    for _ in range(6):
+        d = rng.getrandbits(bits) | (1 << (bits - 1)) | 1
+        out += [(d, d), (d - 1, d), ((d + 1) & mx, d), (d, d - 1)]
+    out = [(n, d) for n, d in dict.fromkeys(out) if d != 0]
+    if len(out) > count:
+        out = rng.sample(out, count)
+    return out
+
+
 def scenarios(tier, rng):
     quick = tier == "quick"
     sc = []
@@ -263,6 +291,7 @@ def scenarios(tier, rng):
                 ps += reciprocal_sensitive_cases(bits, rng.sample(sens, min(len(sens), 60)), rng, 2)
             if 129 <= bits <= 1100:
                 ps += zero_run_cases(bits, rng, 30 if quick else 300)
+                ps += low_zero_divisor_cases(bits, rng, 60 if quick else 600)
         for a, b in dict.fromkeys(ps):
             sc.append({"g": "arith", "op": "div", "bits": bits, "a": tobytes(a), "b": tobytes(b)})
     return {"ux_arith": sc}
